@@ -49,7 +49,9 @@ ASSUMPTIONS = [
     "gain_small_dose: tolerance 1e-6 * max|(g-1) DFT2(in)| + 2e-13 * max|DFT2(in)| (measured round-trip noise of the real code "
     "plus the oracle's matrix DFT: 2.2e-15), float64 calls with dose <= 1 only",
     "strict 'more dose attenuates more' for dose steps below 1 is judged on the summed non-DC power of white-spectrum images "
-    "(noise/impulse/counts), float64, steps >= 1e-8 absolute (identical images inside one stack: relative gap >= 1e-9 of a dose >= 5)",
+    "(noise/impulse/counts), float64, steps >= 1e-8 absolute (identical images inside one stack: relative gap >= 1e-9 of a dose >= 5), "
+    "and only where the predicted reduction (power * step / largest critical exposure of the quantifier) exceeds 10x a generous "
+    "rounding-noise bound - an output attenuated down to rounding noise cannot show it",
     "dose files hold values that are exact in float32 (multiples of 1/64), so the loader's float32 parsing is not judged here",
     "mdoc doses: PriorRecordDose + ExposureDose per section, paired with images in ascending tilt-angle order (tilt angles "
     "without ties); the DateTime-ranked fallback of total_dose_load (no PriorRecordDose) is not exercised",
@@ -782,7 +784,7 @@ def run_case(ctx, case):
                          bin_ky_kx=[int(orc.dft_index(H)[ky]), int(orc.dft_index(W)[kx])], amp=float(aY[z, ky, kx]), amp_more=float(aM[z, ky, kx]))
             elif 1e-8 <= delta[z] < 1.0 and case["dtype"] == "float64" and case["descr"][z]["kind"] in WHITE:
                 pY, pM = _nondc_power(aY[z]), _nondc_power(aM[z])
-                if not pM < pY:
+                if _resolvable(pY, delta[z], H * W, float(aX[z].max())) and not pM < pY:
                     okm = False
                     w = dict(info, image=z, what="a small extra dose did not reduce the summed non-DC power", dose=repr(float(doses[z])),
                              more=repr(float(delta[z])), power=pY, power_more=pM)
@@ -804,6 +806,8 @@ def run_case(ctx, case):
                 continue
             lo, hi = (j, k) if doses[j] < doses[k] else (k, j)
             pl, ph = _nondc_power(aY[lo]), _nondc_power(aY[hi])
+            if not _resolvable(pl, float(doses[hi] - doses[lo]), H * W, float(aX[lo].max())):
+                continue
             ctx.check("monotone", ph < pl, dict(info, what="identical images in one stack: the one with (slightly) more dose is not attenuated more",
                                                 images=[lo, hi], doses=[repr(float(doses[lo])), repr(float(doses[hi]))], power=[pl, ph],
                                                 outputs_identical=bool(np.array_equal(Y[lo], Y[hi]))))
@@ -819,6 +823,18 @@ def run_case(ctx, case):
         os.remove(stack_in)
     if case["cls"] == "history_inplace":
         _history(ctx, case)
+
+
+NE_MAX = orc.A * (1.0 / 640.0) ** orc.B + orc.C      # largest critical exposure inside the quantifier (64 pixels of 10 A)
+
+
+def _resolvable(power, more_dose, nbins, scale):
+    """Can a dose step `more_dose` be seen in the summed non-DC power?  Lower bound of the predicted reduction
+    (power * more_dose / NE_MAX, every bin loses at least that fraction) against a generous bound of the rounding noise
+    (1e-14 * largest input bin per output bin: measured 2.2e-15).  Heavily attenuated outputs are pure rounding noise."""
+    eta = 1e-14 * scale
+    noise = 2.0 * np.sqrt(power * nbins) * eta + nbins * eta * eta
+    return power * more_dose / NE_MAX > 10.0 * noise
 
 
 def _nondc_power(a):
